@@ -3,7 +3,7 @@
 # while confirming both in the background (files seeded/<ID>-K and -L when confirmed)
 P=$1; ID=$2; PROPS=${3:-$ID}
 cd /verif
-tools/confirm_round.sh $P $ID K L > /tmp/confirm_out_$ID.log 2>&1 &
+tools/confirm_round.sh $P $ID ${XA:-K} ${XB:-L} > /tmp/confirm_out_$ID.log 2>&1 &
 for l in A B; do
   echo "== $ID $l"
   python3 tools/eval_mutation.py ${P}_$ID/MUTATION/$l.diff $PROPS 2>&1 | grep -E "rc=|monitor=|NOT APPLY" | cut -c1-230 | head -${4:-3}
